@@ -240,6 +240,7 @@ type chainState struct {
 	// rounds since the channel's last report in which no report came out while the outcome lacked an aggregate
 	// for one of the channel's streams (the report would have had a missing value: real codecs refuse it)
 	unencodable map[uint32][]uint64
+	lastOn      map[uint32]uint64 // channel -> observationsTimestamp (seconds) of its last report as encoded by the real codec
 }
 
 func secondsRes(format uint32) bool { return format == 1 || format == 4 }
@@ -248,15 +249,18 @@ func checkChain(c *stepCtx, st *chainState, prev, cur *jOutcomeView, vc voteCoun
 	// a removal vote > f, a promotion, or retirement ends the run of rounds the property speaks about
 	if prev.stage != cur.stage {
 		st.last = map[uint32]uint64{}
+		st.lastOn = nil
 	}
 	for id, v := range vc.rm {
 		if v > c.f {
 			delete(st.last, id)
+			delete(st.lastOn, id)
 		}
 	}
 	for id := range st.last {
 		if _, ok := cur.defs[id]; !ok {
 			delete(st.last, id)
+			delete(st.lastOn, id)
 		}
 	}
 	for _, r := range reports {
@@ -296,6 +300,20 @@ func checkChain(c *stepCtx, st *chainState, prev, cur *jOutcomeView, vc voteCoun
 		}
 		st.last[id] = ts
 		delete(st.unencodable, id)
+		if on := jObj(m["_onchain"]); on != nil {
+			// the window the real codec wrote: [validFromTimestamp, observationsTimestamp] in seconds
+			vf, end := jU64(on["validFrom"]), jU64(on["obsTs"])
+			if vf > end {
+				c.bad("onchain-window-empty", fmt.Sprintf("channel %d: the encoded report is valid from second %d but observed at second %d", id, vf, end))
+			}
+			if st.lastOn == nil {
+				st.lastOn = map[uint32]uint64{}
+			}
+			if le, ok := st.lastOn[id]; ok && vf != le+1 {
+				c.bad("onchain-windows-not-adjacent", fmt.Sprintf("channel %d: the encoded report is valid from second %d but the previous encoded report ended at second %d", id, vf, le))
+			}
+			st.lastOn[id] = end
+		}
 	}
 	if st.unencodable == nil {
 		st.unencodable = map[uint32][]uint64{}
